@@ -58,6 +58,14 @@ CLAIMED = {
          "Builder domain: every host over a 3-label alphabet (plus IP literals, mixed case) against every no-proxy list of <= 2 entries (thorough) incl. empty strings, leading dots, blanks, IP fragments, for each scheme and proxy configuration. Environment domain: all 7^6 assignments of the six proxy variables and all 289 no_proxy/NO_PROXY pairs, observed through for_url on three probe hosts.",
          "Ambiguous corners the statement leaves open are accepted both ways and counted; the environment is mutated in-process on one thread.",
          "DESIGN.md §4 C11"),
+ "C15": ("property-based testing (proptest): generated forms sent through send(), de-chunked by the strict request parser and decoded by an independent multipart/form-data decoder; multiset comparison",
+         "Generated forms (0..8 text fields, 0..6 files incl. the empty form) with names over printable Unicode, data over all byte values incl. delimiter look-alikes, an earlier build's boundary and part-header text, sizes sweeping every residue of the 8 KiB copy buffer; the decoded parts must equal the added parts, the closing delimiter must be present, the boundary must not occur in any data, and a second build embedding the first build's boundary must still decode.",
+         "Order of parts is not compared; content types are compared case-insensitively ignoring blanks; the boundary alphabet check follows RFC 2046.",
+         "DESIGN.md §4 C15"),
+ "C16": ("model-based (stateful) property testing with proptest: generated operation sequences interpreted against real Session / RequestBuilder / PreparedRequest objects and a value-semantics model, with concurrent per-thread suffixes",
+         "Generated histories over every public setter, header operation, clone, builder creation, prepare and send; after every step the settings snapshot and header map of every live object equal the model, and sends behave per the model on the wire (redirect bound, max_headers acceptance, proxy dialled, header fields); a quarter of the cases deal the objects to 1..4 threads that continue concurrently.",
+         "Settings without wire effect are observed through the verif-hooks snapshot; memory-ordering races cannot occur in safe Rust and are not the subject.",
+         "DESIGN.md §4 C16"),
 }
 hooks_commits = subprocess.run(["git","-C","/repo","log","--format=%h %s"],capture_output=True,text=True).stdout.splitlines()
 hook_commits = [l.split()[0] for l in hooks_commits if l.split(' ',1)[1].startswith('verif-hooks')]
